@@ -18,6 +18,16 @@ import (
 func init() {
 	register("C02", "exploration", C02)
 	Replayers["C02"] = func(raw []byte) string {
+		var f struct {
+			Foreign *foreignCase `json:"foreign"`
+		}
+		if json.Unmarshal(raw, &f) == nil && f.Foreign != nil {
+			res := runForeignCase(f.Foreign)
+			if res.C02Sig == "" {
+				return "holds"
+			}
+			return res.C02Sig + ": " + res.C02Msg
+		}
 		var c tblCase
 		if err := json.Unmarshal(raw, &c); err != nil {
 			return "bad case: " + err.Error()
@@ -606,10 +616,33 @@ func C02(r *ev.Run) {
 			r.Sample(c)
 		}
 	})
+	// tables written by other tools (entry arrays of 1..256 slots, first usable sector directly behind a short array) taken
+	// through read - modify - write
+	fcases := enumForeign(r.Quick())
+	fout := newDistinct()
+	fdone := parallel(len(fcases), r.OutOfTime, func(i int) {
+		c := &fcases[i]
+		res := runForeignCase(c)
+		fout.add(res.Outcome)
+		outcomes.add("foreign:" + res.Outcome)
+		if res.Outcome == "infra" {
+			r.Report("c02|infra|foreign-table", res.InfraMsg, c)
+		}
+		if res.Outcome == "ok" {
+			b, _ := json.Marshal(c)
+			accepted.add(string(b))
+		}
+		if res.C02Sig != "" {
+			r.Report(res.C02Sig, res.C02Msg, map[string]any{"foreign": c})
+		}
+	})
+	r.Set("foreign_table_cases", int64(fdone))
+	r.Set("foreign_table_outcomes", fout.snapshot())
+	done += fdone
 	r.Set("evaluations", int64(done))
 	r.Set("distinct_nontrivial", int64(accepted.n()))
 	r.Set("distinct_outcomes", outcomes.snapshot())
-	r.Set("rule", "full cross product of GPT tables (0-4, 40, 128 entries; index in {1,2,5,128,0,129} incl. sparse/unordered/duplicate vectors; 3 start/end/size spellings; geometry first/mid/last usable LBA and spanning; 7 names incl. 36 UTF-16 units of non-BMP runes and two over-long ones; 4 attribute patterns; 4 type GUIDs; disks minimum/10MiB/2TiB+1MiB sparse; 512/4096 logical sectors; protective MBR on/off; rewrite over an existing GPT/MBR/noise) and MBR tables (0-4 entries; type in {00,0B,83,EE,FF}; bootable; start,size in {1,2048,2^31,2^32-1}); every case executed on the real Table.Write; non-trivial = distinct tables that Write accepted and that were compared end to end (gpt.Read/mbr.Read, partition.Read, Disk.GetPartition, independent on-disk parser)")
-	r.Set("exhaustive", done == len(cases))
+	r.Set("rule", "[foreign tables: GPTs built byte by byte with 1..256 entry slots x 512/4096-byte sectors x first usable sector directly behind the array or at the 16-KiB mark x 0/1/3 used slots, read by the library, modified (none/rename/add/drop) and written back; judged by the independent parser and a re-read] full cross product of GPT tables (0-4, 40, 128 entries; index in {1,2,5,128,0,129} incl. sparse/unordered/duplicate vectors; 3 start/end/size spellings; geometry first/mid/last usable LBA and spanning; 7 names incl. 36 UTF-16 units of non-BMP runes and two over-long ones; 4 attribute patterns; 4 type GUIDs; disks minimum/10MiB/2TiB+1MiB sparse; 512/4096 logical sectors; protective MBR on/off; rewrite over an existing GPT/MBR/noise) and MBR tables (0-4 entries; type in {00,0B,83,EE,FF}; bootable; start,size in {1,2048,2^31,2^32-1}); every case executed on the real Table.Write; non-trivial = distinct tables that Write accepted and that were compared end to end (gpt.Read/mbr.Read, partition.Read, Disk.GetPartition, independent on-disk parser)")
+	r.Set("exhaustive", done == len(cases)+len(fcases))
 	r.Assume("independent parser gptck written from UEFI spec ch.5 is the definition of a valid on-disk GPT/MBR")
 }
